@@ -8,7 +8,8 @@ Everything runs on ONE thread.  A scenario is data:
 
 Hook points (the places where, in a real run, other threads' callbacks can get in between two actions of the
 caller): `backend.configure`, `backend.compute_batch_size` when called by the caller (not from inside a callback),
-the retrieval loop's `time.sleep`, and consumer-side pauses between `next()` calls.
+the retrieval loop's `time.sleep`, consumer-side pauses between `next()` calls, `backend.abort_everything` (while the
+backend cancels, batches in flight may still complete), and between two calls / after the last call on the object.
 
 The event log (`pull`, `submit`, `exec`, `yield`, `ret`, `raise`, `abort`, `start_call`, …) is compared with the log
 the Lean model (lean/JoblibModel/ParallelProto.lean) produces for the same scenario.
@@ -45,7 +46,7 @@ class Call:
     n: int  # number of tasks
     fail: tuple = ()  # positions (0-based within the call) of tasks that raise
     iterfail: int = -1  # position at which the input iterator raises (-1: never)
-    cons: tuple = ()  # consumer ops for generator modes: 1 next, 2 close, 3 drop, 4 call-again, 5 pause(hook)
+    cons: tuple = ()  # consumer ops for generator modes: 1 next, 2 close, 3 drop, 4 call-again, 5 pause(hook), 6 leave the with-block
 
 
 @dataclass
@@ -67,16 +68,13 @@ class Scenario:
     # else parked[how % len]
     instr: tuple = ()
     # further oracle-only features (not in the Lean model):
-    between: tuple = ()        # between[k]: parked indices completed between call k-1 and call k (k = len(calls): after the last)
-    abort_deliver: tuple = ()  # parked indices completed while backend.abort_everything() is running (each abort)
     midpull_close: tuple = ()  # (call_no, j): the consumer closes the generator while a callback delivered at a consumer
     #                            pause is inside its j-th pull from the input iterable
     probe_wait: bool = False   # evaluate Parallel._wait_retrieval() at every bytecode of completion callbacks delivered
     #                            while the caller sleeps in the retrieval loop (what the caller would see if it ran there)
 
     def oracle_only(self):
-        return bool(self.instr or self.between or self.abort_deliver or self.midpull_close or self.probe_wait
-                    or any(6 in c.cons for c in self.calls))
+        return bool(self.instr or self.midpull_close or self.probe_wait)
 
     def tokens(self):
         """Flat integer encoding for the Lean driver."""
@@ -98,7 +96,6 @@ class Scenario:
                     abort_drops=self.abort_drops,
                     calls=[dict(n=c.n, fail=list(c.fail), iterfail=c.iterfail, cons=list(c.cons)) for c in self.calls],
                     sched=[list(e) for e in self.sched], instr=[list(e) for e in self.instr],
-                    between=[list(e) for e in self.between], abort_deliver=list(self.abort_deliver),
                     midpull_close=list(self.midpull_close), probe_wait=self.probe_wait)
 
     @staticmethod
@@ -108,7 +105,6 @@ class Scenario:
                         abort_drops=d["abort_drops"],
                         calls=tuple(Call(c["n"], tuple(c["fail"]), c["iterfail"], tuple(c["cons"])) for c in d["calls"]),
                         sched=tuple(tuple(e) for e in d["sched"]), instr=tuple(tuple(e) for e in d.get("instr", ())),
-                        between=tuple(tuple(e) for e in d.get("between", ())), abort_deliver=tuple(d.get("abort_deliver", ())),
                         midpull_close=tuple(d.get("midpull_close", ())), probe_wait=bool(d.get("probe_wait", False)))
 
 
@@ -269,9 +265,7 @@ class Run:
 
             def abort_everything(self, ensure_ready=True):
                 run.ev(f"abort {int(bool(ensure_ready))}")
-                for idx in sc.abort_deliver:
-                    if run.parked:
-                        run.deliver(idx % len(run.parked))
+                run.hook("abort")  # batches still in flight may complete while the backend cancels them
                 if sc.abort_drops:
                     run.parked.clear()
 
@@ -331,7 +325,8 @@ class Run:
                 base = 0
                 try:
                     for cno, call in enumerate(sc.calls):
-                        self._between(cno)
+                        if cno >= 1:
+                            self.hook("between")  # late completions of earlier calls, before _reset_run_tracking
                         self.cur_call = cno
                         self.idle_run = 0
                         self.midpull_closed = False
@@ -343,7 +338,7 @@ class Run:
                     self.ev("hang")
                     self.outcomes.append(("hang",))
                     return self
-                self._between(len(sc.calls))
+                self.hook("between")  # late completions after the last call
                 if sc.managed and not self.exited:
                     par.__exit__(None, None, None)
                     self.ev("exit")
@@ -352,13 +347,6 @@ class Run:
             if mon_on:
                 self._monitor_stop(mon_on)
         return self
-
-    def _between(self, k):
-        if k < len(self.sc.between) and self.sc.between[k]:
-            self.ev("between")
-            for idx in self.sc.between[k]:
-                if self.parked:
-                    self.deliver(idx % len(self.parked))
 
     count_instr = False
     MONITORED = ("_start", "dispatch_one_batch", "_retrieve", "_wait_retrieval", "_get_outputs", "__call__",
